@@ -153,7 +153,9 @@ class Report:
         self.violations += 1
         d = os.path.join(ROOT, "replays", self.pid)
         os.makedirs(d, exist_ok=True)
-        safe = "".join(c if c.isalnum() or c in "-_." else "_" for c in name)
+        import hashlib as _h
+        safe = "".join(c if c.isalnum() or c in "-_." else "_" for c in name)[:120] + \
+            "_" + _h.sha1(name.encode()).hexdigest()[:6]
         path = os.path.join(d, safe + ".json")
         with open(path, "w") as f:
             json.dump({
